@@ -28,12 +28,23 @@ macro_rules! int_val {
                 }
             }
             fn special(k: u64) -> Self {
-                match k % 5 {
+                // 0, MIN, MAX, a repeated small value, single high bits at every byte boundary,
+                // alternating bit patterns and full-width pseudo-random values (wrapping casts)
+                let spread = (u128::from(k) << 64) | u128::from(k.wrapping_mul(0x9e37_79b9_7f4a_7c15));
+                match k % 14 {
                     0 => 0,
                     1 => <$t>::MIN,
                     2 => <$t>::MAX,
-                    3 => 5,
-                    _ => (k / 5 % 100) as $t,
+                    3 | 4 => 5,
+                    5 => (1u128 << 7) as $t,
+                    6 => (1u128 << 15) as $t,
+                    7 => (1u128 << 31) as $t,
+                    8 => (1u128 << 63) as $t,
+                    9 => (u64::MAX as u128) as $t,
+                    10 => 0xaaaa_aaaa_aaaa_aaaa_aaaa_aaaa_aaaa_aaaau128 as $t,
+                    11 => (1u128 << 32) as $t,
+                    12 => spread as $t,
+                    _ => (k / 14 % 100) as $t,
                 }
             }
             fn eq_b(a: &DoubleArrayAhoCorasick<Self>, b: &DoubleArrayAhoCorasick<Self>) -> bool {
